@@ -322,18 +322,8 @@ func r15_2(r *Report, p *Program) {
 		// listObjects is given the parent's namespace when the parent is namespaced, else the rule's
 		for _, cs := range callsTo(g, false, "customize.listObjects") {
 			ns := cs.Common().Args[1]
-			okN := false
-			if ph, isPhi := ns.(*ssa.Phi); isPhi && len(ph.Edges) == 2 {
-				okN = true
-				for i, e := range ph.Edges {
-					pol := phiEdgePolarity(ph, i, func(a string) bool { return strings.HasSuffix(a, ".APIResource.Namespaced") })
-					isParentNs := E(e) == "call(unstructured.Unstructured.GetNamespace)(p1)"
-					isRuleNs := strings.HasSuffix(E(e), ".Namespace") && !strings.Contains(E(e), "GetNamespace")
-					if !(isParentNs && pol == 1 || isRuleNs && pol == -1) {
-						okN = false
-					}
-				}
-			}
+			t, e, sel := selectOf(ns, func(a string) bool { return strings.HasSuffix(a, ".APIResource.Namespaced") })
+			okN := sel && t == "call(unstructured.Unstructured.GetNamespace)(p1)" && strings.HasSuffix(e, ".Namespace") && !strings.Contains(e, "GetNamespace")
 			if !okN {
 				if strings.HasSuffix(E(ns), ".Namespace") {
 					okL, whyL = false, "names-style listing is scoped by the rule's namespace only: for a namespaced parent and a rule that leaves the namespace out, same-named objects of EVERY namespace are sent to the hook (and never wake the parent: the trigger side excludes other namespaces)"
